@@ -19,12 +19,10 @@ serializers = {
 }
 
 def dictify_complex_values(data: dict) -> dict:
-    for key, value in data.items():
-        if isinstance(value, complex):
-            data[key] = {'real': value.real, 'imag': value.imag}
-    return data
+    return {key: {'real': value.real, 'imag': value.imag} if isinstance(value, complex) else value for key, value in data.items()}
 
 def undictify_complex_values(data: dict) -> dict:
+    data = dict(data)
     for key, value in data.items():
         if isinstance(value, dict) and sorted(list(value.keys())) == sorted(['real', 'imag']):
             data[key] = complex(value['real'], value['imag'])
@@ -39,19 +37,21 @@ def undictify_complex_values(data: dict) -> dict:
             data[key] = value['abs'] * complex(np.cos(phase_rad), np.sin(phase_rad))
     return data
 
-def dictify_all_complex_values(data: dict) -> dict:
-    for key, value in data.items():
-        if isinstance(value, dict):
-            data[key] = dictify_all_complex_values(value)
+def dictify_all_complex_values(data):
+    if isinstance(data, complex):
+        return {'real': data.real, 'imag': data.imag}
+    if isinstance(data, dict):
+        return {key: dictify_all_complex_values(value) for key, value in data.items()}
+    if isinstance(data, list):
+        return [dictify_all_complex_values(value) for value in data]
     return data
 
-def undictify_all_complex_values(data: dict) -> dict:
-    for key, value in data.items():
-        if isinstance(value, dict):
-            data[key] = undictify_all_complex_values(value)
-        if isinstance(value, list):
-            data[key] = [undictify_all_complex_values(v) for v in value]
-    return undictify_complex_values(data)
+def undictify_all_complex_values(data):
+    if isinstance(data, dict):
+        return undictify_complex_values({key: undictify_all_complex_values(value) for key, value in data.items()})
+    if isinstance(data, list):
+        return [undictify_complex_values({'item': undictify_all_complex_values(value)})['item'] for value in data]
+    return data
 
 def serialize(data: T, format: str, dict_processor: Callable[[T], dict] = dictify_all_complex_values) -> str:
     serializer = serializers.get(format, None)
